@@ -266,7 +266,55 @@ GATE_TEXT["C20"] = ("Structural core of C20, part 1 (maskdom): K1 every control 
                    "the loop variable with all columns covered and N x stride = table length, or an unrolled scan reading every "
                    "entry with constant indices, or delegation to such a lookup. NOT decided: that "
                    "iszero/equals compute mathematical equality, that a lookup mask selects the requested index.")
-CHECKS = {"C20": check_gates("C20", ["maskdom", "muxshape"]), "C05": check_gates("C05", ["gates"]), "C06": check_gates("C06", ["gates"]), "C07": check_gates("C07", ["gates"]),
+def eng_hashreset(f, sub, prop):
+    from . import hashreset
+    hashreset.run_hashreset(f, sub, prop)
+
+
+ENGINES["hashreset"] = eng_hashreset
+GATE_TEXT["C17"] = ("Two structural clauses of C17: G7a for each hash context type, reset() (transitively) writes every field "
+                    "that new() initialises, except the reviewed configuration / dead-buffer fields; G7b every public function "
+                    "named *reset* or documented as automatically resetting reaches its return only through a call that resets "
+                    "self. NOT decided: digest values, padding boundaries, chunking independence, SHAKE stream continuity.")
+
+
+def eng_p4(f, sub, prop):
+    from . import apiparity
+    apiparity.run_p4(f, sub, prop)
+
+
+ENGINES["p4"] = eng_p4
+
+
+def check_C18(tier):
+    from . import apiparity
+    run = Run("C18", tier, level="other")
+    cfgs = configs_for(tier, quick=["x64", "x64-w32", "x64-m51", "x64-clmul", "x64-tf"])
+    if "x64" not in cfgs:
+        cfgs = ["x64"] + cfgs
+    # P3: the backend-sensitive structural rules, re-decided in every configuration, reported against C18
+    stats = run_engines(run, ["p4", "maskdom", "muxshape", "gates"], cfgs, "C18")
+    th = factsmod.tree_hash()
+    af = {c: factsmod.load(c, th) for c in cfgs}
+    n, nref = apiparity.run_p1(af, run, "C18")
+    n5 = apiparity.run_p5(af, run, "C18")
+    return run.finish(
+        explanation="Structural clauses of C18: P1 every externally reachable function of a backend type in the reference "
+                    "configuration exists with the same signature (modulo module paths and the documented type aliases) in "
+                    "every other configuration that provides the type; P4 every value split into a word index `k >> S` and a "
+                    "bit offset `k & M` uses M = 2^S - 1 (sibling bit accessors must agree); P3 the backend-sensitive "
+                    "structural rules (status words are masks, control words are masks, primitives are multiplexers, lookups "
+                    "scan their table, field codecs' gates) are re-decided under each build configuration; P5 sibling functions of "
+                    "two backends that have the same shape (block count and call sequence) must also agree on which operands "
+                    "(parameters positionally, locals up to renaming) each call receives. NOT decided: "
+                    "byte-identical results of the arithmetic.",
+        evaluations=run.obligations, distinct=n,
+        rule="one obligation per (configuration, API item) for P1, per index/offset pair for P4, plus the obligations of the "
+             "re-run rules",
+        extra_cov=dict(configs=cfgs, reference_api_items=nref, sibling_pairs_compared=n5, per_config=stats))
+
+
+CHECKS = {"C17": check_gates("C17", ["hashreset"]), "C18": check_C18, "C20": check_gates("C20", ["maskdom", "muxshape"]), "C05": check_gates("C05", ["gates"]), "C06": check_gates("C06", ["gates"]), "C07": check_gates("C07", ["gates"]),
           "C08": check_gates("C08", ["gates"]), "C09": check_gates("C09", ["gates"]),
           "C15": check_gates("C15", ["gates", "totality"]), "C16": check_gates("C16", ["gates"]),
           "C02": check_C02, "C04": check_C04, "C13": check_gates("C13", ["uxcomp", "gates"], level="exploration"),
